@@ -195,7 +195,7 @@ func receiveDonor(frame []byte) {
 		simkit.Global.Inc("frames_rejected_by_decoder")
 		return
 	}
-	simkit.Global.Inc("donor_frames_parsed")
+	simkit.Global.Inc("probe.donor_frames_parsed")
 	scriptSig := types.ExtractScriptSigFromCoinbaseTx(aux.Transaction())
 	_, _ = types.ExtractSignatureTimeFromCoinbase(scriptSig)
 	_ = aux.Header().Timestamp()
